@@ -193,6 +193,8 @@ class Sim(object):
         self.created = set()  # rel paths this process created
         self.touched = set()  # rel paths this process opened for writing / renamed onto / removed
         self.write_in_flight_at_fault = False
+        self.versions = {}  # rel -> [sha of the complete content after each finished write cycle (close of a written file / rename onto it)]
+        self._boundary = set()
         self.step_sites = [] if record_steps else None
         self.step_at_event = []  # step counter value at each event
 
@@ -214,7 +216,11 @@ class Sim(object):
     def event(self, kind, rel, detail=None, ctx=None):
         if self.frozen:
             raise Killed()
+        if self._boundary:
+            self.note_versions()
         n = len(self.events)
+        if kind in ("close_w", "replace", "rename") and rel is not None:
+            self._boundary.add(rel)
         self.events.append({"n": n, "kind": kind, "path": rel, "detail": detail})
         if rel is not None and kind in WRITE_EVENT_KINDS:
             self.touched.add(rel)
@@ -237,6 +243,20 @@ class Sim(object):
                     if kind == "close_w":
                         fobj._really_close()
             raise SimOSError(en, "simulated (persistent) " + os.strerror(en), rel)
+
+    def note_versions(self):
+        import hashlib
+
+        for rel in sorted(self._boundary):
+            try:
+                with _orig_open(os.path.join(self.root, rel), "rb") as f:
+                    h = hashlib.sha256(f.read()).hexdigest()[:16]
+            except OSError:
+                continue
+            lst = self.versions.setdefault(rel, [])
+            if not lst or lst[-1] != h:
+                lst.append(h)
+        self._boundary.clear()
 
     def step(self, code):
         if self.frozen:
@@ -726,6 +746,8 @@ def run_process(ns, sim, fn, cwd=None, home=None, extra_path=None):
                 )
     finally:
         _ACTIVE = None
+        if sim._boundary and not sim.frozen:
+            sim.note_versions()
         # a process that ends (however it ends) has its descriptors closed by the OS;
         # data still in user-space buffers is written by interpreter shutdown only if it was not killed
         for fobj in sim.open_files:
@@ -913,6 +935,8 @@ class SimResult(object):
         self.created = set(sim.created)
         self.touched = set(sim.touched)
         self.root = sim.root
+        # only files written in more than one cycle have intermediate complete states worth knowing
+        self.versions = {k: v[:-1] for k, v in sim.versions.items() if len(v) > 1}
 
 
 def run_forked(fn):
